@@ -450,8 +450,31 @@ namespace {
 // a scheduling point of the current fiber
 void point(const void *addr, int op) {
   ++G.seq;
-  if (!G.region || G.team <= 1)
+  if (!G.region || G.team <= 1) {
+    // One thread: nothing to schedule, but the budgets still apply - a run
+    // that never ends (or that the harness wants to stop) is left through
+    // the guard instead of waiting for the watchdog.
+    if (G.active && G.have_guard) {
+      ++G.stats.points;
+      const uint64_t idle = G.stats.points - G.last_progress;
+      const char *why = nullptr;
+      if (G.abort_requested)
+        why = "abort requested by the harness";
+      else if (idle > G.sched.budget)
+        why = "no progress event for the whole step budget (one thread)";
+      else if (G.stats.points > G.sched.total_cap) {
+        why = "total point cap reached while still progressing";
+        G.stats.inconclusive = true;
+      }
+      if (why) {
+        G.stats.aborted = true;
+        G.stats.abort_reason = why;
+        G.region = false;
+        longjmp(G.guard, 1);
+      }
+    }
     return;
+  }
   Fiber &f = G.fibers[G.cur];
   ++f.consec;
   ++f.idle_points;
